@@ -7,7 +7,7 @@ From Coq Require Import List Bool Arith NArith ZArith String Ascii.
 From Coq.Strings Require Import Byte.
 From Verif.Base Require Import Bytes Outcome Str.
 From Verif.Model Require Import Agg.
-From Verif.Proofs Require Import Agg_spec C05_lemmas.
+From Verif.Proofs Require Import Agg_spec Agg_closed C05_lemmas.
 Import ListNotations.
 Local Open Scope string_scope.
 
@@ -214,8 +214,10 @@ Definition c05_model (c : agg_config) (ops : list op) : string :=
 (* ---------------------------------------------------------------- oracle *)
 (* The body of theorem C05_aggregation, applied to an observation: after every operation
    (i) only the flow with the operation's 5-tuple changed, (ii) the number of flows is the number
-   of distinct 5-tuples seen, (iii) the abstraction of that flow's record equals the specification
-   run over the flow's events. *)
+   of distinct 5-tuples seen (C05_one_flow_per_key), (iii) the abstraction of that flow's record
+   equals the specification run over the flow's events, (iv) for a history inside the exporter
+   contract the closed forms of the property statement hold of that abstraction (closed_check).
+   Second flag of c05_run: the history is inside the exporter contract (wf_history). *)
 Fixpoint parse_rec (n : nat) (l : list string) : option (record * list string) :=
   match n with
   | O => Some ([], l)
@@ -264,20 +266,6 @@ Fixpoint lookup_rec (l : list (key * record)) (k : key) : option record :=
   | (k', r) :: t => if key_eqb k' k then Some r else lookup_rec t k
   end.
 
-Definition op_key (o : op) : option key :=
-  match o with OpRec r => rec_key r | OpReset k => Some k end.
-
-Fixpoint distinct_keys (seen : list key) (h : list op) : nat :=
-  match h with
-  | [] => List.length seen
-  | OpRec r :: t =>
-      match rec_key r with
-      | Some k => if existsb (key_eqb k) seen then distinct_keys seen t else distinct_keys (k :: seen) t
-      | None => distinct_keys seen t
-      end
-  | OpReset _ :: t => distinct_keys seen t
-  end.
-
 Definition parse_count (s : string) : option nat :=
   match s with String "n" (String "=" r) => parse_nat r | _ => None end.
 
@@ -296,8 +284,29 @@ Definition fabs_eqb (a b : flow_abs) : bool :=
 Definition ofabs_eqb (a b : option flow_abs) : bool :=
   match a, b with None, None => true | Some x, Some y => fabs_eqb x y | _, _ => false end.
 
-(* groups: the observation after each operation; done: operations so far (reversed) *)
-Fixpoint oracle_loop (c : agg_config) (impl : list (key * record)) (done todo : list op)
+(* the closed forms of Props/C05.v ((a)-(d) and the common fields), evaluated on an abstraction f
+   of a record of a flow with events evs: what the property text says, checked directly *)
+Definition closed_check (c : agg_config) (evs : list fev) (f : flow_abs) : bool :=
+  let idxs := seq 0 (nstats c) in
+  let ln := latest_node evs in
+  N.eqb (f_end f) (maxl (ends evs)) &&
+  forallb (fun n =>
+    N.eqb (a_end (nd n f)) (node_end n evs) && list_N_eqb (a_tp (nd n f)) (node_tp n evs) &&
+    forallb (fun i => N.eqb (nth i (a_stat (nd n f)) 0%N)
+                            (if is_delta c i then node_delta n i evs else node_total n i evs)) idxs)
+    [SrcNode; DstNode] &&
+  list_N_eqb (f_tp f) (node_tp ln evs) &&
+  forallb (fun i => N.eqb (nth i (f_stat f) 0%N)
+                          (if is_delta c i then node_delta ln i evs else maxl (col i (fronts evs)))) idxs &&
+  (negb (flow_mono c evs) ||
+   match latest evs with
+   | Some x => forallb (fun i => is_delta c i || N.eqb (nth i (f_stat f) 0%N) (stat i (snd x))) idxs
+   | None => false
+   end).
+
+(* groups: the observation after each operation; done: operations so far (reversed);
+   inc: the whole history is inside the exporter contract (wf_history) *)
+Fixpoint oracle_loop (c : agg_config) (inc : bool) (impl : list (key * record)) (done todo : list op)
   (groups : list (list string)) : bool :=
   match todo, groups with
   | [], [] => true
@@ -311,9 +320,13 @@ Fixpoint oracle_loop (c : agg_config) (impl : list (key * record)) (done todo : 
               let impl' := fold_left (fun m ch => set_nth m (fst (fst ch)) (snd (fst ch), snd ch)) chs impl in
               String.eqb st "ok" &&
               forallb (fun ch => key_eqb (snd (fst ch)) k) chs &&
-              Nat.eqb n (distinct_keys [] h) && Nat.eqb (List.length impl') n &&
+              Nat.eqb n (List.length (flow_keys h)) && Nat.eqb (List.length impl') n &&
               ofabs_eqb (option_map (abs c) (lookup_rec impl' k)) (spec_flow c (events_of c h k)) &&
-              oracle_loop c impl' done' todo' groups'
+              (negb inc || match lookup_rec impl' k with
+                           | Some r => closed_check c (events_of c h k) (abs c r)
+                           | None => true
+                           end) &&
+              oracle_loop c inc impl' done' todo' groups'
           | _, _, _ => false
           end
       | _ => false
@@ -321,10 +334,13 @@ Fixpoint oracle_loop (c : agg_config) (impl : list (key * record)) (done todo : 
   | _, _ => false
   end.
 
-Definition C05_holds_on (c : agg_config) (ops : list op) (obs : list string) : bool :=
-  if wf_config c && typed_history c ops then oracle_loop c [] [] ops (split_semi obs None) else true.
+(* inside the exporter contract of the property's quantifier *)
+Definition c05_hyp (c : agg_config) (ops : list op) : bool := wf_config c && wf_history c ops.
 
-Definition c05_hyp (c : agg_config) (ops : list op) : bool := wf_config c && typed_history c ops.
+(* body of C05_aggregation for every typed history; inside the contract also the closed forms *)
+Definition C05_holds_on (c : agg_config) (ops : list op) (obs : list string) : bool :=
+  if wf_config c && typed_history c ops
+  then oracle_loop c (contract_history c ops) [] [] ops (split_semi obs None) else true.
 
 Definition c05_run (case obs : list string) : string :=
   match c05_parse case with
